@@ -156,7 +156,7 @@ pub fn describe(ctx: &Ctx, idx: u64) -> Option<String> {
 
 /// block openers still open at the deepest point of the text, and whether a bracket or a text
 /// literal is left open: the shape of the hostile inputs on which the wrapper's nested searches
-/// take minutes to hours (known finding deep-nesting-unbalanced-slow)
+/// take minutes to hours (known finding deep-nesting-invalid-slow)
 fn nesting_profile(input: &str) -> (usize, bool) {
     use crate::refscan::RK;
     let toks = crate::refscan::scan(input);
@@ -205,9 +205,12 @@ fn nesting_profile(input: &str) -> (usize, bool) {
 
 impl Prop for C04 {
     fn classify_hang(&self, input: &str) -> Option<String> {
-        let (depth, unbalanced) = nesting_profile(input);
-        if depth >= 12 && unbalanced {
-            Some("deep-nesting-unbalanced-slow".to_string())
+        // (the slow inputs seen so far are mutated 30-40 level programs; not all of them have an
+        // unbalanced bracket, a dropped `:` or `end` is enough, so only the depth is the signature;
+        // deep *valid* nesting is covered by the growth monitor and the ladders)
+        let (depth, _unbalanced) = nesting_profile(input);
+        if depth >= 12 {
+            Some("deep-nesting-invalid-slow".to_string())
         } else {
             None
         }
